@@ -410,6 +410,11 @@ def explore_cfg(cfg, acc):
             nxt = trail[i + 1] if i + 1 < len(trail) else "end"
             if i < len(ch.choices):
                 transitions.add((st, ch.choices[i], nxt))
+        if ch.deviations() >= 2 or acc.evaluations % 5000 == 1:
+            acc.sample(dict(config={k: cfg[k] for k in
+                                    ("shape", "window", "n_tries", "seq")},
+                            fates=[list(f) for f in ep.fates],
+                            choices=list(ch.choices), problems=len(problems)))
         oc = ",".join(sorted(set(f for _, f in ep.fates)))
         acc.outcome("fates:" + oc if len(oc) < 40 else "fates:many")
         for kind, extra, msg in problems:
